@@ -248,14 +248,14 @@ impl Ctx {
                     .join(" ")
             );
         }
-        const MAX_LINES: usize = 60;
-        for l in vio_lines.iter().take(MAX_LINES) {
+        let max_lines: usize = std::env::var("VERIF_MAX_LINES").ok().and_then(|s| s.parse().ok()).unwrap_or(60);
+        for l in vio_lines.iter().take(max_lines) {
             println!("{}", l);
         }
-        if vio_lines.len() > MAX_LINES {
+        if vio_lines.len() > max_lines {
             println!(
                 "... and {} more violation keys (all written under {})",
-                vio_lines.len() - MAX_LINES,
+                vio_lines.len() - max_lines,
                 replay_dir.display()
             );
         }
